@@ -7,6 +7,7 @@ from hypothesis import strategies as st
 
 from refs import expm_ref
 from vlib import util
+from vlib import defaults
 from vlib.core import Part
 
 PROPERTY = "C07"
@@ -467,4 +468,7 @@ PARTS = [
     Part("switch_grid", oracle_expm, enum=enum_switch, quick=(8, None), thorough=(8, None), exhaustive=True),
     Part("expm", oracle_expm, strategy=expm_cases, quick=(16, 40), thorough=(16, 1500)),
     Part("ssmodel", oracle_ss, strategy=ss_cases, quick=(8, 60), thorough=(16, 1500)),
+    # documented defaults: leaving a keyword out = passing its documented value (vlib/defaults.py)
+    Part("defaults", defaults.make_oracle("C07"), enum=defaults.make_enum(), quick=(1, None), thorough=(1, None),
+         exhaustive=True),
 ]
